@@ -199,3 +199,13 @@ def ts_template(lit: str) -> Optional[List[int]]:
     if len(lit) < 2 or lit[0] != "`" or lit[len(lit) - 1] != "`":
         return None
     return decode(lit, "ts-template", 1, len(lit) - 1, 96)
+
+
+LINE_BOUNDARIES = (10, 11, 12, 13, 0x1C, 0x1D, 0x1E, 0x85, 0x2028, 0x2029)
+
+
+def no_line_boundary(literal: str) -> bool:
+    """The literal contains none of the characters at which ``str.splitlines`` breaks a line: the generators
+    indent the emitted code line by line (``textwrap.indent``, ``indent_but_first_line``), which would tear such a
+    literal apart and insert the indention into the text."""
+    return all(ord(ch) not in LINE_BOUNDARIES for ch in literal)
